@@ -81,6 +81,8 @@ def tasks(tier):
     cfgs.append(dict(base, M=3, max_unknown=None, callable_kind="falsy"))
     # async entry points are handed callbacks that return awaitable objects (not coroutines)
     cfgs.append(dict(base, M=3, max_unknown=None, async_awaitables=True))
+    # time passes inside the sleep handler (a handler that flushes logs, a before_sleep that blocks)
+    cfgs.append(dict(base, M=3, max_unknown=None, handler_durs=[0, 2], hook_dur=1, deadline=None))
     for cfg in cfgs:
         # family 1: callbacks at policy level, decorator included
         cfg.setdefault("strat", {"default": "ctx", "per": {}})
